@@ -150,12 +150,12 @@ SETTERS = {
     'clear': [None], 'reset_prefix': [None], 'reset_reliable': [None], 'reset_rejoin': [None],
     'prefix': ['', SPY, 'aeron', 'foo', SPY + ':', 'manual', 'é'],
     'media': ['udp', 'ipc', 'tcp', '', 'UDP', 'udp '],
-    'endpoint': ['localhost:9999', '224.10.9.8:777', '', 'a=b', 'x?y:z', '€\U0001d11e', 'a|b'],
+    'endpoint': ['localhost:9999', '224.10.9.8:777', '', 'a=b', 'x?y:z', '€\U0001d11e', 'a|b', 'host?', '?'],
     'network_interface': ['192.168.0.3', '', 'eth0:1', 'if=0', 'a|'],
     'control_endpoint': ['localhost:7777', '', '\x00', '|'],
     'control_mode': ['manual', 'dynamic', 'auto', '', 'Manual', 'manual '],
     'tags': ['1,2', '', 'tag:7', 'a=b=c', 't|u'],
-    'alias': ['alpha', '', 'an alias', 'é€', 'a?b'],
+    'alias': ['alpha', '', 'an alias', 'é€', 'a?b', 'who-is-there?', '=', ':'],
     'congestion_control': ['cubic', 'static', '', 'c:c'],
     'reliable': [True, False], 'sparse': [True, False], 'eos': [True, False], 'tether': [True, False], 'group': [True, False],
     'rejoin': [True, False], 'is_session_tagged': [True, False],
@@ -181,7 +181,7 @@ def rand_value(name, rng):
     vals = SETTERS[name]
     v = rng.choice(vals)
     if isinstance(v, str) and rng.random() < 0.25:
-        v = rstr(rng, 'ab:=?.-, ' + ''.join(UNI[:5]), 0, 8)
+        v = rstr(rng, 'ab:=?.-, ' + ''.join(UNI[:5]), 0, 8) + rng.choice(['', '', '?', ':', '=', '??'])
     if name in ('initial_term_id', 'term_id', 'session_id') and rng.random() < 0.5:
         v = rng.randrange(-2**31, 2**31)
     if name == 'linger' and rng.random() < 0.3:
@@ -221,6 +221,37 @@ def gen_builder(rng, tier):
         if rng.random() < 0.85:
             ops.insert(rng.randint(0, len(ops)), ['media', rng.choice(['udp', 'ipc'])])
         cases.append({'kind': 'b', 'ops': ops})
+    # legal string values that end in / consist of the characters build() and the parser treat specially ('|' excepted):
+    # as the last printed parameter (nothing after it), and followed by another parameter
+    tricky = ['?', 'who-is-there?', '??', 'a?b?', ':', 'a:', '=', 'x=', '=?', '?=:', 'aeron:', '?a']
+    string_setters = ['endpoint', 'network_interface', 'control_endpoint', 'tags', 'alias', 'congestion_control']
+    for n in string_setters:
+        for v in tricky:
+            cases.append({'kind': 'b', 'ops': [['media', rng.choice(['udp', 'ipc'])], [n, v]]})
+        for v in rng.sample(tricky, 4):
+            cases.append({'kind': 'b', 'ops': [[n, v], ['media', 'udp'], ['rejoin', True]]})
+            cases.append({'kind': 'b', 'ops': [['prefix', SPY], [n, v], ['media', 'ipc'], [rng.choice(string_setters), rng.choice(tricky)]]})
+    # a reused builder: every stateful setter, then clear(), then the setters whose output depends on that state
+    for tagged in (True, False):
+        cases.append({'kind': 'b', 'ops': [['is_session_tagged', tagged], ['clear', None], ['media', 'udp'], ['session_id', 5]]})
+        cases.append({'kind': 'b', 'ops': [['media', 'udp'], ['is_session_tagged', tagged], ['session_id', 3], ['clear', None],
+                                           ['media', 'ipc'], ['session_id', 4]]})
+        cases.append({'kind': 'b', 'ops': [['is_session_tagged', tagged], ['session_id', 3], ['clear', None], ['session_id', 4],
+                                           ['is_session_tagged', not tagged], ['media', 'udp']]})
+    for n in names:
+        if n not in ('clear', 'media'):
+            cases.append({'kind': 'b', 'ops': [['is_session_tagged', True], [n, legal_value(n)], ['clear', None], ['media', 'udp'],
+                                               ['session_id', 5], ['prefix', '']]})
+    for _ in range(150 if tier != 'thorough' else 3000):
+        first = [[n, rand_value(n, rng) if rng.random() < 0.3 else legal_value(n)] for n in rng.sample(names, rng.randint(1, 8))]
+        if rng.random() < 0.7:
+            first.append(['is_session_tagged', True])
+        second = [[n, legal_value(n)] for n in rng.sample([x for x in names if x != 'clear'], rng.randint(0, 5))]
+        second += [['media', rng.choice(['udp', 'ipc'])]]
+        if rng.random() < 0.7:
+            second.append(['session_id', rng.choice(I32)])
+        rng.shuffle(second)
+        cases.append({'kind': 'b', 'ops': first + [['clear', None]] + second})
     # clear() must wipe every field: set everything, clear, set a few again
     everything = [[n, legal_value(n)] for n in names if n not in ('clear', 'reset_prefix', 'reset_reliable', 'reset_rejoin')]
     cases.append({'kind': 'b', 'ops': everything + [['clear', None], ['media', 'ipc']]})
